@@ -523,13 +523,22 @@ func (g *Gen) mutation(c *Column) []any {
 func (g *Gen) opMutate(t *Table) []Op {
 	var muts []any
 	used := map[string]bool{}
+	var usedList []string
 	for i := 0; i < 1+g.pick(3); i++ {
 		c := t.Columns[t.ColNames[g.pick(len(t.ColNames))]]
+		if g.prof.Name == "samerow" && len(usedList) > 0 && g.chance(400) {
+			// another mutation of a column this operation has already mutated
+			// (effective after ineffective, cancelling, repeated)
+			c = t.Columns[usedList[g.pick(len(usedList))]]
+		}
 		if g.prof.SimpleWhere && g.prof.Name != "samerow" && used[c.Name] {
 			continue // several mutations of one column in one operation are C03/C11's business
 		}
 		if m := g.mutation(c); m != nil {
 			muts = append(muts, m)
+			if !used[c.Name] {
+				usedList = append(usedList, c.Name)
+			}
 			used[c.Name] = true
 		}
 	}
